@@ -1620,8 +1620,8 @@ class Interp:
                     return base.attrs[attr]
                 if base.cls is not None and base.cls.has_member(attr):
                     return self.get_attr(base, attr, node, frame)
-                if len(args) == 3 and base.attrs.get("__closed__") is not None:
-                    return args[2]
+                if len(args) == 3 and (base.attrs.get("__closed__") is not None or base.cls is not None):
+                    return args[2]  # annotation-only names do not exist at run time
             if len(args) == 2:
                 return self.get_attr(base, attr, node, frame)
             ci = class_of(base)
